@@ -1473,29 +1473,23 @@ class CircuitTemplate(AbstractBaseTemplate):
         if depth > self._depth:
             raise ValueError('Input depth does not match the hierarchical depth of the circuit.')
 
-        path = []
-        input_circuits = {}
-        inp_circuit = input_circuits
-        net = self
-        for i in range(depth):
-            circuit_key = f"input_lvl_{i}"
-            if circuit_key not in net.circuits:
-                c = CircuitTemplate(name=circuit_key, path='none')
-                net = net.update_template(circuits={circuit_key: c})
-                inp_circuit[circuit_key] = {}
-            else:
-                inp_circuit[circuit_key] = net.circuits[circuit_key]
-            net = net.circuits[circuit_key]
-            if i < depth - 1:
-                inp_circuit = inp_circuit[circuit_key]
-            else:
-                net = net.update_template(nodes={node_key: node})
-                inp_circuit[circuit_key] = net
-            path.append(circuit_key)
-        else:
-            net = net.update_template(nodes={node_key: node})
-        if depth > 0:
-            net = self.update_template(circuits=input_circuits)
+        if depth == 0:
+            return node_key, self.update_template(nodes={node_key: node})
+
+        # the input node lives at the same depth as every other node: input_lvl_0/.../input_lvl_{depth-1}/<node>.
+        # Collect the levels of that chain that exist already (from an earlier input) ...
+        path = [f"input_lvl_{i}" for i in range(depth)]
+        chain, lvl = [], self
+        for key in path:
+            lvl = lvl.circuits[key] if lvl is not None and key in lvl.circuits else None
+            chain.append(lvl)
+        # ... and rebuild the chain from the innermost level outwards; every level is a CircuitTemplate
+        inner = chain[-1].update_template(nodes={node_key: node}) if chain[-1] is not None else \
+            CircuitTemplate(name=path[-1], path='none', nodes={node_key: node})
+        for i in range(depth - 2, -1, -1):
+            inner = chain[i].update_template(circuits={path[i + 1]: inner}) if chain[i] is not None else \
+                CircuitTemplate(name=path[i], path='none', circuits={path[i + 1]: inner})
+        net = self.update_template(circuits={path[0]: inner})
         return "/".join(path + [node_key]), net
 
     def _get_nodes_with_var(self, var: tuple, nodes: list) -> list:
